@@ -194,7 +194,12 @@ func runConcScreens(t *rapid.T, prop string) {
 	for g := range progs {
 		n := rapid.IntRange(2, 12).Draw(t, "nops")
 		for i := 0; i < n; i++ {
-			progs[g] = append(progs[g], dop{Kind: rapid.SampledFrom([]string{"set", "set", "set", "show", "sync", "cursor", "register", "setstyle"}).Draw(t, "dop"),
+			kinds := []string{"set", "set", "set", "show", "sync", "cursor", "register", "setstyle", "type"}
+			if prop == "C11" {
+				// mostly typing: the user of each screen types text while the other's does
+				kinds = []string{"type", "type", "type", "type", "set", "show"}
+			}
+			progs[g] = append(progs[g], dop{Kind: rapid.SampledFrom(kinds).Draw(t, "dop"),
 				X: rapid.IntRange(0, cfg.W-1).Draw(t, "x"), Y: rapid.IntRange(0, cfg.H-1).Draw(t, "y"),
 				R:  rapid.SampledFrom([]rune{'a', 'Z', 0x2500, 0x4e00, 0xe9, ' ', 0x2592}).Draw(t, "r"),
 				Fg: rapid.IntRange(-1, 255).Draw(t, "fg"), Attrs: rapid.IntRange(0, 63).Draw(t, "attrs")})
@@ -229,6 +234,8 @@ func runConcScreens(t *rapid.T, prop string) {
 	}
 	var initErr error
 	inited := make([]bool, 2)
+	typed := make([][]rune, 2)
+	got := make([][]rune, 2)
 	for g := range progs {
 		g := g
 		s.Spawn(fmt.Sprintf("app%d", g), func() {
@@ -242,7 +249,14 @@ func runConcScreens(t *rapid.T, prop string) {
 			// (started with a go statement after Init, as applications do:
 			// Init happens before the first PollEvent)
 			simrt.Go(fmt.Sprintf("poller%d", g), func() {
-				for sc.PollEvent() != nil {
+				for {
+					ev := sc.PollEvent()
+					if ev == nil {
+						return
+					}
+					if k, ok := ev.(*tcell.EventKey); ok && k.Key() == tcell.KeyRune {
+						got[g] = append(got[g], k.Rune())
+					}
 				}
 			})
 			for _, o := range progs[g] {
@@ -260,8 +274,14 @@ func runConcScreens(t *rapid.T, prop string) {
 					sc.RegisterRuneFallback(o.R, "+")
 				case "setstyle":
 					sc.SetStyle(st)
+				case "type":
+					// the user types a character (in the locale's character set, UTF-8)
+					typed[g] = append(typed[g], o.R)
+					ttys[g].Feed([]byte(string(o.R)))
 				}
 			}
+			// everything typed so far is delivered before the application quits
+			simrt.Wait("typed-delivered", func() bool { return len(got[g]) >= len(typed[g]) })
 			sc.Fini()
 		})
 	}
@@ -274,6 +294,11 @@ func runConcScreens(t *rapid.T, prop string) {
 	for _, g := range s.Goroutines() {
 		if g.Panic != nil && fail == nil {
 			fail = &hx.Failure{Tag: prop + "/panic", Msg: fmt.Sprintf("panic in %s while two screens draw concurrently: %v\n%s", g.Name, g.Panic, g.PanicStack)}
+		}
+	}
+	for g := range typed {
+		if string(got[g]) != string(typed[g]) && fail == nil {
+			fail = &hx.Failure{Tag: prop + "/text", Msg: fmt.Sprintf("[%s] screen %d was sent %q while the other screen's user typed %q; it delivered %q", cfg.Term, g, string(typed[g]), string(typed[1-g]), string(got[g]))}
 		}
 	}
 	for i, tm := range terms {
@@ -304,7 +329,7 @@ func TestConc(t *testing.T) {
 			return
 		}
 		switch prop {
-		case "C09":
+		case "C09", "C11":
 			runConcScreens(rt, prop)
 		case "C15":
 			runConcTerminfo(rt, prop)
